@@ -136,8 +136,13 @@ def build(spec):
         data[cs["name"]] = col_values(cs, n)
     df = pd.DataFrame(data) if data else pd.DataFrame(index=pd.RangeIndex(n))
     if spec.get("index"):
-        ix = col_values(spec["index"], n)
-        df.index = pd.Index(ix, name=spec["index"]["name"])
+        if spec["index"]["kind"] == "range":
+            # a stored (metadata-only) range index: start / step / name as given, exactly n labels
+            a, st = spec["index"]["start"], spec["index"]["step"]
+            df.index = pd.RangeIndex(a, a + n * st, st, name=spec["index"]["name"])
+        else:
+            ix = col_values(spec["index"], n)
+            df.index = pd.Index(ix, name=spec["index"]["name"])
     return df
 
 
@@ -158,8 +163,12 @@ def gen_spec(rng, n=None, ncols=None, kinds=None, index=None):
     if index is None:
         index = rng.random() < 0.25
     if index and n > 0:
-        k = rng.choice(["int64", "str", "dt_ns", "float64"])
-        spec["index"] = {"name": "idx", "kind": k, "nulls": "none", "seed": rng.randrange(1 << 30)}
+        k = rng.choice(["int64", "str", "dt_ns", "float64", "range", "range"])
+        if k == "range":
+            spec["index"] = {"name": rng.choice([None, None, "r"]), "kind": "range",
+                             "start": rng.choice([0, 0, 0, 1, 5, -3]), "step": rng.choice([1, 2, 2, 3, -1, -2])}
+        else:
+            spec["index"] = {"name": "idx", "kind": k, "nulls": "none", "seed": rng.randrange(1 << 30)}
     return spec
 
 
